@@ -92,7 +92,9 @@ def val2bytes (att : List (Nat × List Kind)) (v : PyVal) (ty : Ty) : R Bytes :=
       else if l = cA then
         match v, attsiz ty with
         | _, .error e => .error e
-        | .ints xs, .ok n => arrayToBytes n.toNat xs
+        | .ints xs, .ok n =>
+          -- `if len(val) != attsiz(att): raise ValueError` (fix 33b75ac)
+          if (xs.length : Int) = n then arrayToBytes n.toNat xs else .error .valueE
         | _, _ => .error .typeE
       else .error .unboundLocalE                    -- no branch assigns `valb`
 
